@@ -235,6 +235,13 @@ class CallGraph:
                         if hit is not None and hit[0] == 'method' and hit[1] not in out:
                             out.append(hit[1])
                 return out, 'super'
+            if isinstance(v, ast.Name) and v.id != recv and fi.cls is not None and self._is_new_instance(fi, v.id):
+                out = []
+                for c in self.classes_for_self(fi):
+                    hit = c.lookup(f.attr)
+                    if hit is not None and hit[0] == 'method' and hit[1] not in out:
+                        out.append(hit[1])
+                return out, 'new-instance'
             if isinstance(v, ast.Name) and v.id == recv and recv is not None:
                 out = []
                 found_attr = False
@@ -272,6 +279,21 @@ class CallGraph:
             return cands, 'by-name'
         return self.dynamic_ctor(fi), 'dynamic-expr'
 
+    def _is_new_instance(self, fi, name):
+        """Is local `name` bound only by object.__new__(cls) / super().__new__(cls) in a __new__ method?"""
+        if fi.name != '__new__' or not fi.params():
+            return False
+        clsparam = fi.params()[0]
+        defs = [a.value for a in walk_function(fi.node) if isinstance(a, ast.Assign)
+                and any(isinstance(t, ast.Name) and t.id == name for t in a.targets)]
+        if not defs:
+            return False
+        for d in defs:
+            if not (isinstance(d, ast.Call) and isinstance(d.func, ast.Attribute) and d.func.attr == '__new__'
+                    and d.args and isinstance(d.args[0], ast.Name) and d.args[0].id == clsparam):
+                return False
+        return True
+
     def _from_target(self, fi, tgt, name):
         if isinstance(tgt, FuncInfo):
             return [tgt], 'function'
@@ -286,8 +308,22 @@ class CallGraph:
         return None, 'unresolved'
 
     def dynamic_ctor(self, fi):
+        """Classes a dynamic constructor call (token_type(result), self.cls(match), fallback_token(s))
+        can instantiate: the classes that can be registered in a token list (block classes for the block
+        tokenizer, span classes for the span tokenizer). Document is never registered."""
         out = []
+        span_base = self.model.classes.get(PKG + '.span_token.SpanToken')
+        block_base = self.model.classes.get(PKG + '.block_token.BlockToken')
+        cands = []
         for c in self.token_classes:
+            if c.name == 'Document':
+                continue
+            if fi.modname.endswith('span_tokenizer') and span_base is not None and not c.is_subclass_of(span_base):
+                continue
+            if fi.modname.endswith('block_tokenizer') and block_base is not None and not c.is_subclass_of(block_base):
+                continue
+            cands.append(c)
+        for c in cands:
             for name in ('__new__', '__init__'):
                 hit = c.lookup(name)
                 if hit is not None and hit[0] == 'method' and hit[1] not in out:
